@@ -15,11 +15,14 @@ def gen_histories(d, n, hlen, seed, tag='lifegen', conn_ids='{21, 22, 23}'):
     return [json.loads(h) for h in hs[:n]], r
 
 
-def write_scenarios(path, hists, rnd, opts_choices=(0, 1, 2, 4, 6, 3)):
+def write_scenarios(path, hists, rnd, opts_choices=(0, 1, 2, 4, 6, 3), forced=None):
+    """forced: {index: (mode, opts)} for histories that need a particular routing mode / option set"""
     cfgs = []
     with open(path, 'w') as f:
-        for h in hists:
+        for i, h in enumerate(hists):
             mode, opts = rnd.randint(0, 1), rnd.choice(opts_choices)
+            if forced and i in forced:
+                mode, opts = forced[i]
             cfgs.append((mode, opts))
             f.write('%d %d %d %s\n' % (mode, opts, len(h), ' '.join(str(x) for o in h for x in o)))
     return cfgs
@@ -32,13 +35,19 @@ def _report(txt):
     return txt[i:i + 4000] + ('\n...\n' + txt[-4000:] if len(txt) > i + 4000 else '')
 
 
+EXIT_REPORTS = []      # what the sanitizers printed when harness processes of the last run_harness() call exited (leak reports)
+
+
 def run_harness(binary, scen, out, n, timeout=900, env=None):
     """Runs all n scenarios, restarting after every crash; returns (executions, stderr snippets per crashed index)."""
     execs, crashes = [], {}
     skip = 0
+    EXIT_REPORTS[:] = []
     while skip < n:
         part = '%s.part' % out
         rc, txt = V.run([binary, 'run', scen, part, str(skip)], timeout=timeout, env=env)
+        if 'LeakSanitizer' in txt:
+            EXIT_REPORTS.append(txt[txt.find('ERROR: LeakSanitizer') if 'ERROR: LeakSanitizer' in txt else 0:])      # LSan reports at process exit, after the last scenario
         cur = None
         lines = open(part).read().splitlines() if os.path.exists(part) else []
         done = 0
